@@ -4,13 +4,33 @@ import json
 from pathlib import Path
 
 root = Path("/verif/seeded")
+
+# seeded changes the quick check of the day did NOT catch at first, and what was strengthened (then re-tried)
+STRENGTHENED = {
+    "C03-mut_C03-m1": "missed at first (update_derived(fn=...) without args= kept a stale cache); ModelEdit got function-only / "
+                      "arguments-only update modes for update_derived and update_reaction",
+    "C07-mut_C07-m2": "missed at first (if-branch translated on the shared symbol table in fn_to_sympy); FnLib got `cut` (local "
+                      "re-bound inside a one-sided if)",
+    "C11-mut_C11-m2": "missed at first (zip(strict=True) dropped: helper called with a defaulted parameter); FnLib got the optional-"
+                      "translatable `dflt`, the C06 oracle corpus got helper calls with defaulted / keyword arguments",
+    "C12-mut_C12-m2": "missed at first (Jacobian closure captured parameter values at construction); the closure is now also called "
+                      "after Simulator.update_parameter and compared with the specification's Jacobian for p := 5 - which exposed "
+                      "a genuine defect (fixed, a665c2e)",
+    "C13-mut_C13-m2": "missed at first (static/dynamic split of computed coefficients read the reaction's arguments); C13 now also "
+                      "compares stoichiometries and derivatives at states != initial",
+    "C09-mut_C09-m2": "missed at first (scan column naming an assignment-defined parameter dropped); ParMap got the column q",
+    "C15-mut_C15-m2": "missed at first (get_result returned earlier results after a failed steady-state search); SteadyLoop got "
+                      "a history (none / earlier simulate / simulate+clear) and a refuted wrong reporter instance",
+    "C16-mut_C16-m1": "missed at first (position expansion of a compound with coefficient 2 and 2 positions); new family `doubled`",
+    "C06-mut_C11-m2": "the C06 check did not catch this C11-targeted change at first; caught after the corpus extension",
+}
 rows = []
 for d in sorted(p for p in root.iterdir() if p.is_dir()):
     m = json.loads((d / "meta.json").read_text())
     summ = " ".join(m.get("check_summary", []))[:160].replace("|", "/")
     rows.append((d.name, m["property"], m.get("needs", m.get("idea", "")), m.get("demo_with_change_exit"),
                  m.get("tests_with_change", "n/a"), m.get("check_cmd", ""), "caught" if m.get("detected") else "MISSED",
-                 m.get("caught_by_after_strengthening", ""), summ))
+                 STRENGTHENED.get(d.name, m.get("caught_by_after_strengthening", "")), summ))
 out = ["# Seeded changes (each confirmed in a scratch worktree; never committed to /repo)", "",
        "| id | property | what it needs to manifest | demo exit with change | repo tests with change | check run | verdict | note | check summary |",
        "|---|---|---|---|---|---|---|---|---|"]
